@@ -57,7 +57,10 @@ func (c *Check) Spec(rule string, m Macros, s FnSpec) {
 		c.HasGuard(fn, rule, "guard:"+g.Label, m, g.Want)
 	}
 	for _, e := range s.Effects {
-		sites := c.Calls(fn, m.X(e.Callee))
+		var sites []*CallSite
+		for _, cs := range c.Calls(fn, m.X(e.Callee)) {
+			sites = append(sites, c.P.Instances(cs)...)
+		}
 		if e.Filter != "" {
 			f := m.X(e.Filter)
 			var keep []*CallSite
@@ -89,7 +92,9 @@ func (c *Check) Spec(rule string, m Macros, s FnSpec) {
 				c.ArgIs(cs, rule, fmt.Sprintf("effect:%s.arg%d", lab, k), m, k, e.Args[k])
 			}
 			if len(e.Under) > 0 {
+				c.extraConds = cs.ExtraConds
 				c.Under(fn, rule, "effect:"+lab, m, cs.Ins, e.Under...)
+				c.extraConds = nil
 			}
 			if e.Err {
 				c.ErrPropagated(cs, rule, lab)
